@@ -347,3 +347,91 @@ Theorem flip_refuted :
   let s := trun 0 (zq 10000) flip_witness in
   ts_qty s = 0 /\ map fst (ts_hooks s) = [HOpen; HOpen; HClose] /\ ts_wallet s <> zq 10000 + sum_pnl 0 (ts_closed s).
 Proof. vm_compute. repeat split; discriminate. Qed.
+
+(* ------------------------------------------------------------------ several symbols share one wallet *)
+Definition with_wallet (w : Qc) (s : tstate) : tstate :=
+  {| ts_qty := ts_qty s; ts_entry := ts_entry s; ts_prev := ts_prev s; ts_wallet := w; ts_cur := ts_cur s; ts_closed := ts_closed s; ts_hooks := ts_hooks s |}.
+
+(* what a symbol has contributed to the wallet so far: net PnL of its closed trades + the open cycle's realised part and fees *)
+Definition contribution (fee : Qc) (s : tstate) : Qc := sum_pnl fee (ts_closed s) + open_part fee s.
+
+(* the per-symbol part of the invariant (everything except the wallet equation) *)
+Definition Shape (s : tstate) : Prop := ts_qty s = QB (ts_cur s) - QS (ts_cur s) /\ rows_pos (ts_cur s).
+
+Lemma shape_inv fee w s : Shape s -> Inv fee (w - contribution fee s) (with_wallet w s).
+Proof.
+  intros [A B]. unfold Inv, with_wallet, contribution, open_part. cbn [ts_qty ts_entry ts_wallet ts_cur ts_closed]. split; [exact A|]. split; [ring|exact B].
+Qed.
+
+Lemma inv_shape fee bal s : Inv fee bal s -> Shape s /\ ts_wallet s = bal + contribution fee s.
+Proof.
+  intros (A & B & C). split; [split; assumption|]. unfold contribution, open_part. rewrite <- B. ring.
+Qed.
+
+(* a fill of one symbol moves the shared wallet by exactly the change of that symbol's contribution *)
+Theorem fill_moves_wallet_by_contribution fee w s f : Shape s -> regular (ts_qty s) f = true ->
+  let s' := tstep fee (with_wallet w s) f in
+  Shape s' /\ ts_wallet s' - w = contribution fee s' - contribution fee s.
+Proof.
+  intros Hs R. cbv zeta. pose proof (shape_inv fee w s Hs) as I.
+  assert (R' : regular (ts_qty (with_wallet w s)) f = true) by exact R.
+  pose proof (inv_step fee _ _ f I R') as I'. destruct (inv_shape _ _ _ I') as [Sh E]. split; [exact Sh|]. rewrite E. ring.
+Qed.
+
+(* the session: symbols 0..k-1, each with its own position/trade state, one wallet *)
+Record msession := { m_wallet : Qc; m_syms : list tstate }.
+Fixpoint upd_nth (l : list tstate) (i : nat) (v : tstate) : list tstate :=
+  match l, i with [], _ => [] | _ :: r, O => v :: r | x :: r, S j => x :: upd_nth r j v end.
+Definition mstep (fee : Qc) (m : msession) (sf : nat * fill) : msession :=
+  match nth_error (m_syms m) (fst sf) with
+  | None => m
+  | Some s => let s' := tstep fee (with_wallet (m_wallet m) s) (snd sf) in {| m_wallet := ts_wallet s'; m_syms := upd_nth (m_syms m) (fst sf) s' |}
+  end.
+Fixpoint total_contribution (fee : Qc) (l : list tstate) : Qc := match l with [] => 0 | s :: r => contribution fee s + total_contribution fee r end.
+Definition mregular (m : msession) (sf : nat * fill) : bool :=
+  match nth_error (m_syms m) (fst sf) with None => true | Some s => regular (ts_qty s) (snd sf) end.
+Fixpoint all_mregular (fee : Qc) (m : msession) (l : list (nat * fill)) : bool :=
+  match l with [] => true | sf :: r => mregular m sf && all_mregular fee (mstep fee m sf) r end.
+
+Lemma total_upd fee l : forall i s s', nth_error l i = Some s ->
+  total_contribution fee (upd_nth l i s') = total_contribution fee l + contribution fee s' - contribution fee s.
+Proof.
+  induction l as [|x r IH]; intros i s s' H; [destruct i; discriminate H|]. destruct i as [|i]; cbn [nth_error] in H.
+  - injection H as ->. cbn [upd_nth total_contribution]. ring.
+  - cbn [upd_nth total_contribution]. rewrite (IH i s s' H). ring.
+Qed.
+Lemma shapes_upd l : forall i s', Forall Shape l -> Shape s' -> Forall Shape (upd_nth l i s').
+Proof.
+  induction l as [|x r IH]; intros i s' H Hs; [constructor|]. apply Forall_cons_iff in H. destruct H as [Hx Hr].
+  destruct i as [|i]; cbn [upd_nth]; constructor; auto.
+Qed.
+
+Definition MInv (fee bal : Qc) (m : msession) : Prop := Forall Shape (m_syms m) /\ m_wallet m = bal + total_contribution fee (m_syms m).
+
+Theorem multi_symbol_wallet_identity fee bal l : forall m, MInv fee bal m -> all_mregular fee m l = true -> MInv fee bal (fold_left (mstep fee) l m).
+Proof.
+  induction l as [|sf r IH]; intros m I R; cbn [fold_left]; [exact I|]. cbn [all_mregular] in R. apply andb_true_iff in R. destruct R as [R1 R2].
+  apply IH; [|exact R2]. destruct I as [Sh W]. unfold mstep, mregular in *. destruct (nth_error (m_syms m) (fst sf)) as [s|] eqn:E; [|split; assumption].
+  assert (Hs : Shape s) by (rewrite Forall_forall in Sh; apply Sh; eapply nth_error_In; exact E).
+  destruct (fill_moves_wallet_by_contribution fee (m_wallet m) s (snd sf) Hs R1) as [Sh' D]. cbv zeta in *.
+  split; cbn [m_syms m_wallet]; [apply shapes_upd; assumption|]. rewrite (total_upd fee _ _ s _ E).
+  set (s' := tstep fee (with_wallet (m_wallet m) s) (snd sf)) in *.
+  transitivity (m_wallet m + (ts_wallet s' - m_wallet m)); [ring|]. rewrite D, W. ring.
+Qed.
+
+Lemma tinit_contribution fee bal : contribution fee (tinit bal) = 0.
+Proof. unfold contribution, open_part, tinit, NS, NB, empty_trade. cbn [ts_closed ts_cur ts_qty ts_entry t_buys t_sells notional sum_pnl]. ring. Qed.
+Lemma tinit_shape bal : Shape (tinit bal).
+Proof. unfold Shape, tinit, QB, QS, empty_trade. cbn. split; [apply Qc_is_canon; reflexivity|intros r []]. Qed.
+
+Theorem multi_symbol_session fee bal k l :
+  let m0 := {| m_wallet := bal; m_syms := repeat (tinit bal) k |} in
+  all_mregular fee m0 l = true ->
+  let m := fold_left (mstep fee) l m0 in m_wallet m = bal + total_contribution fee (m_syms m).
+Proof.
+  cbv zeta. intros R. apply (multi_symbol_wallet_identity fee bal l _); [|exact R]. split; cbn [m_syms m_wallet].
+  - apply Forall_forall. intros s Hs. apply repeat_spec in Hs. subst s. apply tinit_shape.
+  - assert (E : forall j, total_contribution fee (repeat (tinit bal) j) = 0).
+    { induction j as [|j IHj]; cbn [repeat total_contribution]; [reflexivity|rewrite tinit_contribution, IHj; ring]. }
+    rewrite E. ring.
+Qed.
